@@ -25,6 +25,7 @@ type DTable struct {
 	u       *FuncUnit
 	info    *types.Info
 	aliases map[*types.Var]ast.Expr
+	commaOk map[*types.Var]ast.Expr // ok variable of `x, ok := E` -> E
 	atoms   map[string]*dtAtom
 	Atoms   []*dtAtom
 	Rows    []DTRow
@@ -33,6 +34,9 @@ type DTable struct {
 	// FallResult, when non-empty, is the result recorded when the interpreted statements fall
 	// through (used for loop bodies: "continue").
 	FallResult string
+	// BreakStmts: what runs when the interpreted loop body executes `break` (the statements that
+	// follow the loop)
+	BreakStmts []ast.Stmt
 }
 
 type DTRow struct {
@@ -46,9 +50,28 @@ func BuildDTable(u *FuncUnit, body *ast.BlockStmt) *DTable {
 	return BuildDTableFall(u, body, "")
 }
 
+// BuildDTableLoop interprets ONE iteration of a for loop in whichever way it is written: a loop
+// condition becomes `if !cond { break }` in front of the body, `break` runs the statements after
+// the loop, falling through the body (or `continue`) yields "continue".
+func BuildDTableLoop(u *FuncUnit, loop *ast.ForStmt, after []ast.Stmt) *DTable {
+	var list []ast.Stmt
+	if loop.Cond != nil {
+		list = append(list, &ast.IfStmt{Cond: &ast.UnaryExpr{Op: token.NOT, X: &ast.ParenExpr{X: loop.Cond}}, Body: &ast.BlockStmt{List: []ast.Stmt{&ast.BranchStmt{Tok: token.BREAK}}}})
+	}
+	list = append(list, loop.Body.List...)
+	if after == nil {
+		after = []ast.Stmt{}
+	}
+	return buildDTable(u, &ast.BlockStmt{List: list}, "continue", after)
+}
+
 // BuildDTableFall is BuildDTable for a statement list that may fall through (a loop body).
 func BuildDTableFall(u *FuncUnit, body *ast.BlockStmt, fall string) *DTable {
-	d := &DTable{u: u, info: u.Info(), aliases: map[*types.Var]ast.Expr{}, atoms: map[string]*dtAtom{}, FallResult: fall}
+	return buildDTable(u, body, fall, nil)
+}
+
+func buildDTable(u *FuncUnit, body *ast.BlockStmt, fall string, breakStmts []ast.Stmt) *DTable {
+	d := &DTable{u: u, info: u.Info(), aliases: map[*types.Var]ast.Expr{}, atoms: map[string]*dtAtom{}, FallResult: fall, BreakStmts: breakStmts}
 	d.collectAliases(body)
 	d.collectAtoms(body)
 	sort.Slice(d.Atoms, func(i, j int) bool { return d.Atoms[i].Key < d.Atoms[j].Key })
@@ -115,7 +138,17 @@ func (d *DTable) collectAliases(body *ast.BlockStmt) {
 					continue
 				}
 				count[v]++
-				if len(as.Lhs) == len(as.Rhs) && as.Tok == token.DEFINE {
+				if len(as.Lhs) == 2 && len(as.Rhs) == 1 && as.Tok == token.DEFINE {
+					// x, ok := E  (type assertion, map lookup, receive)
+					if d.commaOk == nil {
+						d.commaOk = map[*types.Var]ast.Expr{}
+					}
+					if i == 1 {
+						d.commaOk[v] = as.Rhs[0]
+					} else {
+						rhs[v] = as.Rhs[0]
+					}
+				} else if len(as.Lhs) == len(as.Rhs) && as.Tok == token.DEFINE {
 					rhs[v] = as.Rhs[i]
 				} else {
 					count[v] += 10
@@ -132,7 +165,7 @@ func (d *DTable) collectAliases(body *ast.BlockStmt) {
 		return true
 	})
 	for v, c := range count {
-		if c == 1 {
+		if c == 1 && rhs[v] != nil {
 			d.aliases[v] = rhs[v]
 		}
 	}
@@ -145,6 +178,9 @@ func (d *DTable) canon(e ast.Expr) string {
 		if v, ok := d.info.Uses[x].(*types.Var); ok {
 			if a, ok := d.aliases[v]; ok {
 				return d.canon(a)
+			}
+			if src, ok := d.commaOk[v]; ok {
+				return "ok(" + d.canon(src) + ")"
 			}
 		}
 		return x.Name
@@ -295,10 +331,15 @@ var theProgram *Program
 // operands; otherwise nil. Lets a condition that was moved into a predicate helper be analysed as
 // if it were still written in place.
 func (d *DTable) inlinePredicate(call *ast.CallExpr) ast.Expr {
+	return inlinePredicateCall(d.info, call)
+}
+
+// inlinePredicateCall is the engine-independent form (also used to expand guards).
+func inlinePredicateCall(callerInfo *types.Info, call *ast.CallExpr) ast.Expr {
 	if theProgram == nil {
 		return nil
 	}
-	fn := calleeOf(d.info, call)
+	fn := calleeOf(callerInfo, call)
 	if fn == nil {
 		return nil
 	}
@@ -306,15 +347,54 @@ func (d *DTable) inlinePredicate(call *ast.CallExpr) ast.Expr {
 	if fd == nil || fd.Body == nil || len(fd.Body.List) == 0 || len(fd.Body.List) > 6 {
 		return nil
 	}
+	// leading `x := e` definitions of locals are substituted into the rest
+	finfo0 := theProgram.InfoFor(fd)
+	localDefs := map[types.Object]ast.Expr{}
+	stmts := fd.Body.List
+	for len(stmts) > 0 {
+		as, ok := stmts[0].(*ast.AssignStmt)
+		if !ok || as.Tok != token.DEFINE || len(as.Lhs) != 1 || len(as.Rhs) != 1 {
+			break
+		}
+		id, ok := as.Lhs[0].(*ast.Ident)
+		if !ok || finfo0.Defs[id] == nil {
+			break
+		}
+		// the local must not be assigned again
+		reassigned := false
+		ast.Inspect(fd.Body, func(m ast.Node) bool {
+			if o, ok := m.(*ast.AssignStmt); ok && o != as {
+				for _, l := range o.Lhs {
+					if lid, ok := l.(*ast.Ident); ok && finfo0.Uses[lid] == finfo0.Defs[id] {
+						reassigned = true
+					}
+				}
+			}
+			if o, ok := m.(*ast.IncDecStmt); ok {
+				if lid, ok := o.X.(*ast.Ident); ok && finfo0.Uses[lid] == finfo0.Defs[id] {
+					reassigned = true
+				}
+			}
+			return true
+		})
+		if reassigned {
+			return nil
+		}
+		localDefs[finfo0.Defs[id]] = substExpr(finfo0, as.Rhs[0], localDefs)
+		stmts = stmts[1:]
+	}
+	if len(stmts) == 0 {
+		return nil
+	}
 	// body: zero or more `if c { return e }` followed by `return e` -> one boolean expression
-	n := len(fd.Body.List)
-	last, ok := fd.Body.List[n-1].(*ast.ReturnStmt)
+	n := len(stmts)
+	last, ok := stmts[n-1].(*ast.ReturnStmt)
 	if !ok || len(last.Results) != 1 {
 		return nil
 	}
 	var folded ast.Expr = last.Results[0]
 	for i := n - 2; i >= 0; i-- {
-		ifs, ok := fd.Body.List[i].(*ast.IfStmt)
+		ifs, ok := stmts[i].(*ast.IfStmt)
 		if !ok || ifs.Init != nil || ifs.Else != nil || len(ifs.Body.List) != 1 {
 			return nil
 		}
@@ -332,6 +412,9 @@ func (d *DTable) inlinePredicate(call *ast.CallExpr) ast.Expr {
 	ret := &ast.ReturnStmt{Results: []ast.Expr{folded}}
 	finfo := theProgram.InfoFor(fd)
 	subst := map[types.Object]ast.Expr{}
+	for k, v := range localDefs {
+		subst[k] = v
+	}
 	if fd.Recv != nil && len(fd.Recv.List) > 0 && len(fd.Recv.List[0].Names) > 0 {
 		sel, ok := ast.Unparen(call.Fun).(*ast.SelectorExpr)
 		if !ok {
@@ -352,7 +435,44 @@ func (d *DTable) inlinePredicate(call *ast.CallExpr) ast.Expr {
 			i++
 		}
 	}
+	if noInlinePredicates[fn.Name()] || anchoredFuncs[fn] {
+		return nil
+	}
+	// only boolean predicates
+	if sig, ok := fn.Type().(*types.Signature); !ok || sig.Results().Len() != 1 || !isBoolType(sig.Results().At(0).Type()) {
+		return nil
+	}
+	substExtraInfo = callerInfo
+	defer func() { substExtraInfo = nil }()
+	for k, v := range localDefs {
+		subst[k] = substExpr(finfo, v, subst)
+	}
 	return substExpr(finfo, ret.Results[0], subst)
+}
+
+func isBoolType(t types.Type) bool {
+	b, ok := t.Underlying().(*types.Basic)
+	return ok && b.Info()&types.IsBoolean != 0
+}
+
+// substExtraInfo: a second types.Info in which rebuilt selector expressions are registered (the
+// caller's, when a predicate of another package is inlined).
+var substExtraInfo *types.Info
+
+func registerSynth(info *types.Info, orig, synth ast.Expr) {
+	for _, in := range []*types.Info{info, substExtraInfo} {
+		if in == nil {
+			continue
+		}
+		if tv, ok := info.Types[orig]; ok {
+			in.Types[synth] = tv
+		}
+		if os, ok := orig.(*ast.SelectorExpr); ok {
+			if sel, ok := info.Selections[os]; ok {
+				in.Selections[synth.(*ast.SelectorExpr)] = sel
+			}
+		}
+	}
 }
 
 // substExpr rebuilds e with identifiers bound in subst replaced; nodes without replaced
@@ -373,7 +493,9 @@ func substExpr(info *types.Info, e ast.Expr, subst map[types.Object]ast.Expr) as
 		if nx == x.X {
 			return x
 		}
-		return &ast.SelectorExpr{X: nx, Sel: x.Sel}
+		ns := &ast.SelectorExpr{X: nx, Sel: x.Sel}
+		registerSynth(info, x, ns)
+		return ns
 	case *ast.StarExpr:
 		nx := substExpr(info, x.X, subst)
 		if nx == x.X {
@@ -414,7 +536,9 @@ func substExpr(info *types.Info, e ast.Expr, subst map[types.Object]ast.Expr) as
 		if !changed {
 			return x
 		}
-		return &ast.CallExpr{Fun: nf, Args: args, Lparen: x.Lparen, Rparen: x.Rparen}
+		nc := &ast.CallExpr{Fun: nf, Args: args, Lparen: x.Lparen, Rparen: x.Rparen}
+		registerSynth(info, x, nc)
+		return nc
 	}
 	return e
 }
@@ -630,6 +754,25 @@ func (d *DTable) exec(stmts []ast.Stmt, as map[string]int) (string, bool) {
 					return "", false
 				}
 			}
+		case *ast.BranchStmt:
+			if x.Label != nil {
+				d.Err = "labelled branch"
+				return "", false
+			}
+			switch x.Tok {
+			case token.BREAK:
+				if d.BreakStmts == nil {
+					d.Err = "break outside an interpreted loop"
+					return "", false
+				}
+				return d.exec(d.BreakStmts, as)
+			case token.CONTINUE:
+				if d.FallResult != "" {
+					return d.FallResult, true
+				}
+			}
+			d.Err = "unsupported branch statement"
+			return "", false
 		case *ast.AssignStmt, *ast.DeclStmt, *ast.EmptyStmt:
 			// aliases were collected up front; other assignments do not affect control flow here
 		case *ast.BlockStmt:
@@ -685,3 +828,7 @@ func (d *DTable) describe() []string {
 	}
 	return out
 }
+
+
+// noInlinePredicates: predicates that rules recognise by identity in guards; they stay calls.
+var noInlinePredicates = map[string]bool{"transactionShouldComplete": true, "isNextStateID": true, "empty": true, "executeResponseIsSuccessful": true}
